@@ -20,7 +20,7 @@ def main():
     for m in sorted(pkgutil.iter_modules(props.__path__), key=lambda m: m.name):
         mod = importlib.import_module(f"harness.props.{m.name}")
         meta = getattr(mod, "META", None)
-        if not meta:
+        if not meta or not hasattr(mod, "main"):
             continue
         pid = m.name.upper()
         claimed.add(pid)
